@@ -78,6 +78,75 @@ def _spans(template):
     return out
 
 
+# ------------------------------------------------------------------ write_pdb_string: the CONECT records of one atom
+FP = 'vermouth/pdb/pdb.py'
+Rec = TTuple(TInt, TInt, TSeq(TInt), names=['nfields', 'center', 'partners'])
+
+
+def setup_conect(cx):
+    from pyvc.builtins import list_append
+    from pyvc.interp import StarArgs
+    OUT = cx.heap('OUT', cx.box('OUT', TSeq(Rec)))        # the CONECT lines appended to `out`, as records
+    todo = cx.box('todo', TSeq(TInt))
+    cx.spec_env['T0'] = SV(TSeq(TInt), todo.e)
+    center = cx.val('center', TInt)                         # nodeidx2atomid[(mol_idx, node_idx)]
+    cx.spec_env['center'] = center
+    n2a = Obj('nodeidx2atomid', __getitem__=Builtin(lambda e, k: center, 'nodeidx2atomid[]'))
+
+    class N:
+        pass
+    number_fmt = Obj('number_fmt')                          # '{:>5dt}': one right-aligned five-column integer field
+
+    def times(e, n):
+        o = Obj('fields', n=n)
+        o.attrs['__radd__'] = Builtin(lambda e2, head: o if head == 'CONECT' else (_ for _ in ()).throw(EngineError('record head')), 'CONECT+')
+        return o
+    number_fmt.attrs['__mul__'] = Builtin(times, 'number_fmt*')
+
+    def fmt(e, f, first, *rest):
+        if len(rest) != 1 or not isinstance(rest[0], StarArgs):
+            raise EngineError('formatter.format call of another shape')
+        return (f.attrs['n'], first, rest[0].seq)           # the line as a record: fields declared, first value, other values
+    b = Builtin(fmt, 'formatter.format')
+    b.star_ok = True
+    formatter = Obj('formatter', format=b)
+    out = Obj('out', append=Builtin(lambda e, line: list_append(e, OUT, line), 'out.append'))
+    return dict(todo=todo, nodeidx2atomid=n2a, mol_idx=cx.val('mol_idx', TInt), node_idx=cx.val('node_idx', TInt),
+                number_fmt=number_fmt, formatter=formatter, out=out)
+
+
+LINE_J = ("{L}[len(old(OUT)) + j].center == center and {L}[len(old(OUT)) + j].nfields == len({L}[len(old(OUT)) + j].partners) + 1 and "
+          "len({L}[len(old(OUT)) + j].partners) == (4 if len(T0) - 4 * j >= 4 else len(T0) - 4 * j) and "
+          "forall(lambda q: implies(0 <= q and q < len({L}[len(old(OUT)) + j].partners), {L}[len(old(OUT)) + j].partners[q] == T0[4 * j + q]))")
+conect_chunks = FunctionContract(
+    FP, 'write_pdb_string', 'C16', short='write_pdb_string[CONECT records of one atom]', setup=setup_conect,
+    region=dict(within=["if conect:", "for mol_idx, molecule in enumerate(system.molecules):", "for node_idx in molecule:"], start="while todo:"),
+    ghost_at={'entry': "g_done = 0"},
+    ensures=[
+        # ceil(n / 4) records, each for this atom, each with 1..4 bonded atoms and exactly as many fields as values
+        "len(OUT) == len(old(OUT)) + (len(T0) + 3) // 4",
+        "forall(lambda j: implies(0 <= j and j < (len(T0) + 3) // 4, " + LINE_J.format(L='OUT') + "))",
+        # ... so that the p-th bonded atom is the (p mod 4)-th value of record p div 4: every bond is written exactly once
+        "forall(lambda p: implies(0 <= p and p < len(T0), OUT[len(old(OUT)) + p // 4].partners[p % 4] == T0[p]))",
+        "forall(lambda k: implies(0 <= k and k < len(old(OUT)), OUT[k] == old(OUT)[k]))",
+    ],
+    modifies=['OUT', 'todo'],
+    loops={'L1': LoopSpec(
+        inv=["g_done >= 0 and len(OUT) == len(old(OUT)) + g_done",
+             "len(todo) == (len(T0) - 4 * g_done if len(T0) - 4 * g_done >= 0 else 0)",
+             "implies(len(todo) == 0, g_done == (len(T0) + 3) // 4)",
+             "forall(lambda q: implies(0 <= q and q < len(todo), todo[q] == T0[4 * g_done + q]))",
+             "forall(lambda j: implies(0 <= j and j < g_done, " + LINE_J.format(L='OUT') + "))",
+             "forall(lambda k: implies(0 <= k and k < len(old(OUT)), OUT[k] == old(OUT)[k]))"],
+        modifies=['OUT', 'todo'], locals=dict(g_done=TInt), decreases="len(todo)",
+        ghost_end="g_done = g_done + 1")},
+    canary=[("current, todo = todo[:4], todo[4:]", "current, todo = todo[:4], todo[5:]"),
+            ("fmt = 'CONECT' + number_fmt*(len(current) + 1)", "fmt = 'CONECT' + number_fmt*len(current)"),
+            ("current, todo = todo[:4], todo[4:]", "current, todo = todo[:5], todo[5:]")],
+)
+CONTRACTS.append(conect_chunks)
+
+
 def extra_obligations(tier):
     obs = []
 
